@@ -16,9 +16,9 @@ ChABS == {"A", "B", "*"}
 
 CM2 == {{}, {"A"}}
 CM4 == SUBSET ChAB
-CMS == {{}, {"A"}, {"B"}, {"A", "B"}, {"*"}, {"A", "*"}}
+CMS == {{}, {"A"}, {"B"}, {"A", "*"}}
 RM2 == {{}, {"r1"}}
-RM4 == SUBSET R2
+RM3 == {{}, {"r1"}, {"r1", "r2"}}
 
 (* exhaustive model: a user grant, a role grant, a role assignment, a mixed one touching the other user *)
 GM4 == { G({<<"u1", "A">>}, {}),
@@ -41,6 +41,8 @@ GM8 == GM4 \cup { G({}, {}),
                   G({<<"u2", "A">>, <<"u2", "B">>, <<"r2", "B">>}, {<<"u1", "r1">>, <<"u1", "r2">>}) }
 
 BehaviourExport == (Len(hist) = MaxSteps) => PrintT(<<"BEH", ToJson(hist)>>)
+(* -simulate evaluates invariants on every successor of the states of a trace: export only those that end in a request *)
+SimExport == (Len(hist) = MaxSteps /\ hist[MaxSteps].a = "Request") => PrintT(<<"BEH", ToJson(hist)>>)
 (* candidates: behaviours of the split-load model that end in a quiet request which does not see Eff(u) *)
 RaceExport == (obs.on /\ obs.quiet /\ ~EffectiveAccess) => PrintT(<<"RACE", ToJson(hist)>>)
 =============================================================================
